@@ -18,7 +18,7 @@ CHECK = {
     "units": [
         {
             "name": "c10-gate", "pkg": CC, "rewrite": [CC],
-            "harness": ["connectconformance/c10_test.go", "connectconformance/fakeproc_test.go"],
+            "harness": ["connectconformance/c10_test.go", "connectconformance/fakeproc_test.go", "connectconformance/gateutil_test.go"],
             "test": "^TestVerifC10$", "gomaxprocs": 1,
             "shards": {"quick": 16, "thorough": 16},
             "budget_s": {"quick": 100, "thorough": 1500},
